@@ -132,6 +132,69 @@ func independenceMatrix(rt *rapid.T, h *harness.H) *caseC07 {
 	return c
 }
 
+// operandMatrix: one uncalled function that hands a parameter of type A to an axiom which needs an
+// A' of the same mode - payload or continuation of a send, continuation of a select, operand of a
+// down cast, forwarded channel, argument of a call, body of an annotated cut. A' is A (respelled by
+// a fresh draw or verbatim) or another type of that mode: the verdict is the rule's own comparison
+// of the found type with the expected one, nothing else.
+func operandMatrix(rt *rapid.T, h *harness.H) *caseC07 {
+	d := gen.D{T: rt}
+	tg := &gen.TyGen{D: d, MaxDepth: 2}
+	m := ast.Mode(d.Pick(4, "mode"))
+	ann := func(t *ast.Ty) *ast.Ty {
+		c := t.Clone()
+		if !c.IsShift() {
+			c.Ann = m.String()
+		}
+		return c
+	}
+	A := tg.Body(m, d.Int(0, 2, "depthA"), false)
+	B := A.Clone()
+	if d.Likely(60, "different") {
+		B = tg.Body(m, d.Int(0, 2, "depthB"), false)
+	}
+	one := ast.One(m)
+	p := &ast.Program{}
+	fun := func(name string, ret *ast.Ty, body *ast.Term, params ...ast.Param) {
+		p.Decls = append(p.Decls, &ast.Decl{Kind: ast.DFun, Name: name, Ty: ann(ret), Params: params, Body: body})
+	}
+	pa := func(n string, t *ast.Ty) ast.Param { return ast.Param{Name: n, Ty: ann(t)} }
+	shape := d.Pick(8, "axiom")
+	switch shape {
+	case 0: // payload of a send
+		fun("f", ast.Tensor(m, B, one), &ast.Term{Kind: ast.TSend, X: ast.SelfNm, Y: ast.N("a"), Z: ast.N("u")}, pa("a", A), pa("u", one))
+	case 1: // continuation of a send
+		fun("f", ast.Tensor(m, one, B), &ast.Term{Kind: ast.TSend, X: ast.SelfNm, Y: ast.N("u"), Z: ast.N("a")}, pa("a", A), pa("u", one))
+	case 2: // continuation of a select
+		fun("f", ast.Plus(m, ast.Br{L: "l", T: B}, ast.Br{L: "r", T: one}), &ast.Term{Kind: ast.TSel, X: ast.SelfNm, Label: "l", Y: ast.N("a")}, pa("a", A))
+	case 3: // operand of a down cast (the shift stays at the mode)
+		fun("f", ast.Down(m, B), &ast.Term{Kind: ast.TCast, X: ast.SelfNm, Y: ast.N("a")}, pa("a", A))
+	case 4: // forwarded channel
+		fun("f", B, &ast.Term{Kind: ast.TFwd, X: ast.SelfNm, Y: ast.N("a")}, pa("a", A))
+	case 5: // argument of a call
+		fun("g", B, &ast.Term{Kind: ast.TFwd, X: ast.SelfNm, Y: ast.N("x")}, pa("x", B))
+		fun("f", B, &ast.Term{Kind: ast.TCall, Fn: "g", Args: []ast.Nm{ast.N("a")}}, pa("a", A))
+	case 6: // annotation of a cut whose body is a call
+		fun("g", A, &ast.Term{Kind: ast.TFwd, X: ast.SelfNm, Y: ast.N("x")}, pa("x", A))
+		fun("f", B, &ast.Term{Kind: ast.TNew, X: ast.N("y"), Ann: ann(B), Body: &ast.Term{Kind: ast.TCall, Fn: "g", Args: []ast.Nm{ast.N("a")}},
+			K: &ast.Term{Kind: ast.TFwd, X: ast.SelfNm, Y: ast.N("y")}}, pa("a", A))
+	default: // a client-side select whose continuation is annotated: x : B <- new a.l<self>
+		fun("f", B, &ast.Term{Kind: ast.TNew, X: ast.N("y"), Ann: ann(B), Body: &ast.Term{Kind: ast.TSel, X: ast.N("a"), Label: "l", Y: ast.SelfNm},
+			K: &ast.Term{Kind: ast.TFwd, X: ast.SelfNm, Y: ast.N("y")}}, pa("a", ast.With(m, ast.Br{L: "l", T: A})))
+	}
+	v, _ := refcheck.Program(p, true)
+	if v.Unknown {
+		h.S.Count("reference_unknown")
+		return nil
+	}
+	c := &caseC07{Text: p.Text(nil), Mutant: fmt.Sprintf("operand matrix (axiom %d)", shape), Reason: v.Reason, Detail: v.Detail, Site: v.Site, Expect: "reject", NonTriv: true}
+	if v.Accept {
+		c.Expect = "accept"
+	}
+	h.S.Count(fmt.Sprintf("operand_matrix:%d->%s", shape, c.Expect))
+	return c
+}
+
 func genImplication(kinds []string, classOf map[string]bool) func(rt *rapid.T, h *harness.H) interface{} {
 	return func(rt *rapid.T, h *harness.H) interface{} {
 		d := gen.D{T: rt}
